@@ -152,3 +152,9 @@ func VerifC18UnknownFields() []string {
 	}
 	return out
 }
+
+// VerifC18DecoderEmit returns the decoder's emit function (kept across a generic state restore).
+func VerifC18DecoderEmit(d *Decoder) func(HeaderField) { return d.emit }
+
+// VerifC18SetEncoderWriter points the encoder at another writer.
+func VerifC18SetEncoderWriter(e *Encoder, w io.Writer) { e.w = w }
